@@ -302,6 +302,9 @@ MUTANTS: List[Dict] = [
     M("disp9-drop-self-parent", "breaking", SCFG, '                object.__setattr__(region, "parent_region", scfg.region)\n', "", ["DISP-9"]),
     M("ok-namegen-plus-two", "benign", SCFG, '            name = "__scfg_" + str(kind) + "_var_" + str(idx) + "__"\n            self.kinds[kind] = idx + 1\n        else:', '            name = "__scfg_" + str(kind) + "_var_" + str(idx) + "__"\n            self.kinds[kind] = idx + 2\n        else:', []),
     M("ok-head-set-not-recomputed", "benign", TR, "    # Recompute regions.\n    head_region_blocks = find_head_blocks(scfg, begin)\n    branch_regions = find_branch_regions(scfg, begin, end)\n    tail_region_blocks = find_tail_blocks(\n        scfg, begin, head_region_blocks, branch_regions\n    )\n\n    # extract subregions", "    # Recompute regions.\n    branch_regions = find_branch_regions(scfg, begin, end)\n    tail_region_blocks = find_tail_blocks(\n        scfg, begin, head_region_blocks, branch_regions\n    )\n\n    # extract subregions", [], "the head chain is not changed by the insertions"),
+    M("query2-exit-must-be-in-graph", "breaking", SCFG, "                if jt not in subgraph:\n                    exiting.add(inside)\n                    exits.add(jt)\n", "                if jt not in subgraph:\n                    exiting.add(inside)\n                    if jt in self.graph:\n                        exits.add(jt)\n", ["QUERY-2"]),
+    M("query3-seen-begin", "breaking", SCFG, "        seen = set()\n        to_vist = list(self.graph[begin].jump_targets)\n", "        seen = {begin}\n        to_vist = list(self.graph[begin].jump_targets)\n", ["QUERY-3"]),
+    M("disp9-nested-negated", "breaking", SCFG, "                    if isinstance(inner, RegionBlock):\n", "                    if not isinstance(inner, RegionBlock):\n", ["DISP-9"]),
     # ------------------------------------------------ benign
     M("ok-rename-locals", "benign", TR, None, None, [], "rename locals of loop_restructure_helper (computed edit)"),
     M("ok-sorted-key", "benign", TR, "    for name in sorted(loop):\n", "    for name in sorted(loop, key=str):\n", []),
